@@ -243,6 +243,32 @@ def run(tier):
         n = (abs(val).bit_length() + 8) // 8
         chk.violation(dict(kind="int", neg=val < 0, octets=n), "max_repetitions=%d on the wire: %s" % (val, bytes(rec2.events[idx]["wire"]).hex()),
                       dict(kind="api-int", v=str(val), event=rec2.events[idx]))
+    # names as the walk iterators hand them back: text of exactly the name the agent sent, for neighbours inside every length class
+    # of the sub-identifier encoding (one iterator object renders a whole run of rows)
+    from checks import c08
+    from vlib import agent as ag, scripts as _scripts
+    rec3 = trace.Recorder("c15rows")
+    rruns = c08.row_runs(rec3, _scripts.std_cfgs()["v2c"], ag.Agent())
+    rec3.close()
+    v3_ = trace.validate_parallel("TraceSession.tla", "TraceSession.cfg", rec3.events, [(a, b) for a, b, _ in rruns], k=4, name="c15rows")
+    for i, r in enumerate(v3_["results"]):
+        chk.add_tlc(r, "TraceSession(c15 rows)#%d" % i)
+    chk.traces += len(rruns)
+    ri = 0
+    seen_rows = set()
+    for idx in v3_["fails"]:
+        while rruns[ri][1] <= idx:
+            ri += 1
+        info = rruns[ri][2]
+        label = bytes(info["s"]).decode()
+        if label in seen_rows:
+            continue
+        seen_rows.add(label)
+        ev = rec3.events[idx]
+        chk.violation(dict(kind="walk-name", op=info["op"], ev=ev["ev"]), "rows %s: %s %s - a name handed back by the iterator is not the name that was sent" % (label, ev["ev"], ev.get("exc") or ""),
+                      dict(kind="rows", label=label))
+    for _, _, info in rruns:
+        chk.case(("rows", bytes(info["s"]).decode()))
     chk.sample(dict(kind="int-record", rec=rec.events[0]["recs"][5]))
     chk.sample(dict(kind="msg-record", rec={k: (v if k != "wire" else v[:40]) for k, v in mrecs[3].items()}))
     return chk.finish()
@@ -260,6 +286,17 @@ def replay(path):
             print("VIOLATION property=C15 replay=%s" % path)
             return 1
         return 0
+    if r.get("kind") == "rows":
+        from checks import c08
+        from vlib import agent as ag, scripts as _scripts
+        rec3 = trace.Recorder("c15rows-replay")
+        c08.row_runs(rec3, _scripts.std_cfgs()["v2c"], ag.Agent())
+        v = trace.validate("TraceSession.tla", "TraceSession.cfg", rec3.close())
+        if v["accepted"] and not v["fails"]:
+            print("replay: accepted")
+            return 0
+        print("VIOLATION property=C15 replay=%s" % path)
+        return 1
     if r.get("kind") == "session-message":
         from checks import c03
         rec = trace.Recorder("c15-replay")
